@@ -199,6 +199,25 @@ def body_history(E, o1, a1, o2, a2, o3, a3, base, steps=3):
         return True
 
 
+def body_uneven(E, n, nb, f1, f2, f3, base):
+    """crops sown by num_batches with a remainder (uneven batch sizes): check_bad on healthy results
+    reports nothing and deletes nothing, whichever batches are finished"""
+    n = concretize(n, 3, 5)
+    nb = concretize(nb, 2, 3)
+    fn = mkfn(base)
+    with E() as env:
+        crop = cp.Crop(fn=fn, name="t", parent_dir=env.parent, num_batches=nb)
+        crop.sow_combos(grid(n), verbosity=0)
+        fin = [k + 1 for k, f in enumerate([f1, f2, f3][:nb]) if cbool(f)]
+        for i in fin:
+            cp.grow(i, crop=crop, verbosity=0)
+        if crop.check_bad() != ():
+            return False
+        B = crop.num_batches
+        return (crop.num_results == len(fin) and crop.missing_results() == tuple(i for i in range(1, B + 1) if i not in fin)
+                and crop.is_ready_to_reap() == (len(fin) == B))
+
+
 BODIES = {}
 _G = globals()
 _SIG = "B:int per:int f1:bool f2:bool f3:bool f4:bool fresh:bool i:int s1:bool s2:bool s3:bool s4:bool base:int"
@@ -218,6 +237,10 @@ CONDS = (
     + split_conds(_G, "step4", body_step, _SIG.replace("B:int ", ""),
                   ["1 <= per <= 2 and 1 <= i <= 4"], "op", list(range(10)), fixed=dict(B=4),
                   timeout=900, tiers=("thorough",), bounds="as step with B=4 batches")
+    + [make_cond(_G, "check_bad_uneven", body_uneven, "n:int nb:int f1:bool f2:bool f3:bool base:int",
+                 ["3 <= n <= 5 and 2 <= nb <= 3"], timeout=300,
+                 bounds="crops of 3-5 settings sown with num_batches 2-3 (uneven batch sizes), every finished subset: "
+                        "check_bad on healthy results reports and deletes nothing; progress queries unchanged")]
     + [make_cond(_G, "history2", body_history, "o1:int a1:int o2:int a2:int base:int",
                  ["0 <= o1 <= 4 and 0 <= o2 <= 4 and 1 <= a1 <= 3 and 1 <= a2 <= 3"], fixed=dict(o3=0, a3=1, steps=2),
                  timeout=300, tiers=("quick",),
